@@ -26,6 +26,7 @@ def run(job: Dict[str, Any]) -> Dict[str, Any]:
 
     api.CURRENT.clear()
     api.CURRENT.update(B)
+    api.CURRENT["SEED"] = int(job.get("seed", 0))
     try:
         out["pre"] = bool(h.pre(B, **args))
     except Exception as e:  # noqa: BLE001
